@@ -21,6 +21,8 @@ CHECKS = {
          'history independence by pristine-node refinement + purity fingerprints, seeded histories with restart / RNG / solver faults'),
  'C10': ('Seeded search over simulated sessions supervised from outside the interpreter: T-matrix calculations with in-range, negative, beyond-range, huge and denormal Euler angles and sizes up to and past the convergence edge, interleaved with other solvers and restarts; a node that disappears during a scattering operation is the violation; every calculation must also equal the pristine-node result (COMMON-block state survives failed calls). Sphere-limit / symmetry / angle-reduction identities are evaluated on atomic calculation pairs inside the same histories.', '5 C10',
          'process-lifetime supervision of forked interpreter nodes + pristine-node refinement over seeded histories'),
+ 'C07': ('Seeded search over simulated sessions in which every operation shares one image object: full-grid, permuted point-list, subset-then-calculate, calculate-then-subset, crop-then-calculate and calculate-then-crop routes are interleaved with foreign draws / reseeds of the global NumPy RNG and restarts; every route must give, at each of its points, the value of the pristine full-grid calculation (bit for bit for the non-lens theories); the pixel draw is observed at the RNG seam (replace=False, population, seeding) and must equal the documented draw for the seed or for the generator state at the call; the shared image must never change.', '5 C07',
+         'order-convergence of operation routes + RNG-seam reference + purity fingerprints over seeded histories with RNG interference and restarts'),
 }
 
 def main():
